@@ -36,6 +36,10 @@ func (c *Ctx) seed(class, m, p string) string {
 		salt := hx([]byte(norm.NFKD.String("mnemonic" + p)))
 		res, _ := c.drv.Ask(fmt.Sprintf("pbkdf2 %s %s 2048 64", pw, salt))
 		if res == impl {
+			if impl != mo {
+				// the model runs the executable model of x/text's NFKD (Unicode/XText.lean): it must reproduce D4 exactly
+				c.rep.stale(Violation{Kind: "impl≠model", Class: class, Op: op, Impl: impl, Model: mo, Spec: sp, Detail: "non-stream-safe input: the model of x/text's NFKD does not reproduce the implementation's seed"})
+			}
 			c.rep.Classes["(not stream-safe)"]++
 			c.rep.known(Violation{Kind: "known:not-stream-safe", Class: class, Op: op, Impl: impl, Spec: sp,
 				Detail: "NFKD form has a run of more than 30 non-starters: x/text inserts U+034F (D4)"})
@@ -190,6 +194,9 @@ func propC04(c *Ctx) {
 		c.seed("nonstarter-run", "a"+strings.Repeat("́", n)+"̖", "p")
 		c.seed("nonstarter-run:jamo", "x", "ᄀ"+strings.Repeat("ᅡ", n))
 	}
+	// a rune contributing two leading non-starters right at the limit: x/text inserts U+034F after 29
+	c.seed("nonstarter-run:multi-lead", "x", "a"+strings.Repeat("́", 29)+"\u0344")
+	c.seed("nonstarter-run:multi-lead", "a"+strings.Repeat("́", 28)+"\u0f73\u0f73", "p")
 	r.sample(fmt.Sprintf("seed %q \"TREZOR\" -> 64 bytes equal to Spec.seed", eng))
 	r.sample("seed \"x\" \"a\"+31×U+0301 -> differs from Spec.seed, equals PBKDF2 over x/text's forms: KNOWN-FINDING D4")
 }
@@ -419,9 +426,11 @@ func streamSafeGuess(s string) bool {
 	return best <= 30
 }
 
-// normaliserAssumptions exercises the two recorded assumptions about x/text (Props/Norm.lean):
+// normaliserAssumptions ties the executable model of x/text's normaliser (Unicode/XText.lean, op
+// `xnfkd`) to the real norm.NFKD.String: equal output on every string tried, stream-safe or not.
+// The two facts of Props/Norm.lean are theorems about that model; they are also observed directly:
 // agrees  — on stream-safe input norm.NFKD.String is the Lean NFKD over the pinned tables;
-// overflow — otherwise its output contains 30 consecutive K-items.  Also every scalar value alone
+// overflow — otherwise its output contains 28 consecutive K-items.  Also every scalar value alone
 // (thorough: all 1 112 064; quick: every 37th plus the dense blocks).
 func (c *Ctx) normaliserAssumptions() {
 	r := c.rep
@@ -430,17 +439,23 @@ func (c *Ctx) normaliserAssumptions() {
 		return p.CCC() != 0 || !p.BoundaryBefore()
 	}
 	check := func(class, s string) {
-		m, sp := c.drv.Ask("nfkd " + hx([]byte(s)))
-		ss, _ := field(sp, "ss")
+		m, sp := c.drv.Ask("xnfkd " + hx([]byte(s)))
+		ss, sp := field(sp, "ss")
 		got := norm.NFKD.String(s)
 		r.count(class)
+		// the executable model of x/text's algorithm must reproduce norm.NFKD.String on EVERY string
+		if m != "ok "+hx([]byte(got)) {
+			r.stale(Violation{Kind: "impl≠model", Class: class, Op: "xnfkd " + hx([]byte(s)), Impl: hx([]byte(got)), Model: m, Spec: sp,
+				Detail: "x/text norm.NFKD.String differs from its Lean model Unicode.xnfkd (U+034F insertion included)"})
+		}
 		if ss == "1" {
-			if m != "ok "+hx([]byte(got)) {
-				r.stale(Violation{Kind: "impl≠model", Class: class, Op: "nfkd " + hx([]byte(s)), Impl: hx([]byte(got)), Model: m,
-					Detail: "assumption `agrees`: x/text NFKD differs from UAX#15 NFKD (pinned Unicode 15 tables) on a stream-safe string"})
+			if sp != "ok "+hx([]byte(got)) {
+				r.stale(Violation{Kind: "impl≠model", Class: class, Op: "xnfkd " + hx([]byte(s)), Impl: hx([]byte(got)), Model: sp,
+					Detail: "fact `agrees`: x/text NFKD differs from UAX#15 NFKD (pinned Unicode 15 tables) on a stream-safe string"})
 			}
 			return
 		}
+		r.Classes["(not stream-safe)"]++
 		run, best := 0, 0
 		for _, rn := range got {
 			if kitem(rn) {
@@ -452,9 +467,9 @@ func (c *Ctx) normaliserAssumptions() {
 				run = 0
 			}
 		}
-		if best < 30 {
-			r.stale(Violation{Kind: "impl≠model", Class: class, Op: "nfkd " + hx([]byte(s)), Impl: hx([]byte(got)), Model: m,
-				Detail: fmt.Sprintf("assumption `overflow`: x/text output of a non-stream-safe string has no run of 30 K-items (longest %d)", best)})
+		if best < 28 {
+			r.stale(Violation{Kind: "impl≠model", Class: class, Op: "xnfkd " + hx([]byte(s)), Impl: hx([]byte(got)), Model: m,
+				Detail: fmt.Sprintf("fact `overflow`: x/text output of a non-stream-safe string has no run of 28 K-items (longest %d)", best)})
 		}
 	}
 	step := rune(37)
@@ -520,6 +535,86 @@ func (c *Ctx) normaliserAssumptions() {
 			check("boundary-run", "가"+strings.Repeat(string(mk), ln)+"̖")
 		}
 	}
+	// runes whose decomposition begins with 2 or 3 K-items (U+0344, U+0F73, U+0F75, U+0F81, …): the
+	// insertion point then comes after 28 or 29 K-items, not 30.  Every such rune, at every offset
+	// around the limit, followed by marks that would reorder across the insertion point.
+	multi, lead1, trail := multiLeadRunes()
+	for _, rn := range multi {
+		for ln := 26; ln <= 31; ln++ {
+			check("multi-lead-at-limit", "a"+strings.Repeat("́", ln)+string(rn)+"̖b")
+			check("multi-lead-at-limit", "가"+strings.Repeat("ᅡ", ln)+string(rn)+string(rn)+"̖́")
+		}
+	}
+	// every rune (thorough; quick: a seeded slice) whose decomposition starts with exactly one K-item
+	// or ends with K-items after a starter, right at the limit: exercises nLead / nTrail of every rune
+	for i, rn := range append(lead1, trail...) {
+		if c.quick && i%40 != int(r.Seed%40) {
+			continue
+		}
+		check("rune-at-limit", "a"+strings.Repeat("́", 29)+string(rn)+"̖́b")
+		check("rune-at-limit", string(rn)+strings.Repeat("́", 28)+string(rn)+strings.Repeat("̖", 3))
+	}
+	// mixed strings drawn from all of the above
+	nm := 100 * c.scale
+	if !c.quick {
+		nm = 20000
+	}
+	pool := append(append([]rune{}, multi...), marks...)
+	for k := 0; k < nm; k++ {
+		var sb strings.Builder
+		for parts := 1 + c.rng.Intn(3); parts > 0; parts-- {
+			sb.WriteString(c.randUnicode(1))
+			if c.rng.Intn(3) == 0 {
+				sb.WriteRune(trail[c.rng.Intn(len(trail))])
+			}
+			for j := 20 + c.rng.Intn(25); j > 0; j-- {
+				if c.rng.Intn(8) == 0 {
+					sb.WriteRune(lead1[c.rng.Intn(len(lead1))])
+				} else {
+					sb.WriteRune(pool[c.rng.Intn(len(pool))])
+				}
+			}
+		}
+		check("random-long-runs", sb.String())
+	}
+}
+
+var multiLeadCache [3][]rune
+
+// multiLeadRunes classifies every scalar value by x/text's own per-rune NFKD: runes whose
+// decomposition begins with two or more K-items; with exactly one; and runes that begin with a
+// non-K item but end in K-items (é, Hangul syllables, …).
+func multiLeadRunes() (multi, lead1, trail []rune) {
+	if multiLeadCache[0] != nil {
+		return multiLeadCache[0], multiLeadCache[1], multiLeadCache[2]
+	}
+	kitem := func(rn rune) bool {
+		p := norm.NFKD.PropertiesString(string(rn))
+		return p.CCC() != 0 || !p.BoundaryBefore()
+	}
+	for rn := rune(0); rn <= 0x10FFFF; rn++ {
+		if rn >= 0xD800 && rn <= 0xDFFF {
+			continue
+		}
+		d := []rune(norm.NFKD.String(string(rn)))
+		lead := 0
+		for _, x := range d {
+			if !kitem(x) {
+				break
+			}
+			lead++
+		}
+		switch {
+		case lead >= 2:
+			multi = append(multi, rn)
+		case lead == 1:
+			lead1 = append(lead1, rn)
+		case len(d) > 1 && kitem(d[len(d)-1]):
+			trail = append(trail, rn)
+		}
+	}
+	multiLeadCache = [3][]rune{multi, lead1, trail}
+	return
 }
 
 // coverSentences yields valid 24-word sentences of language li whose first 23 words are consecutive
